@@ -475,6 +475,10 @@ func (cs *ContractSet) parseContractFile(pkgPath, file string) {
 			cur = &Contract{Kind: word, Pkg: pkgPath, File: file, Line: ln, Loops: map[int]*LoopSpec{}, Flags: map[string]string{}}
 			curType = nil
 			key, params, results, err := parseFuncHeader(rest)
+			if word == "extern" {
+				key, params, err = parseExternHeader(rest)
+				results = nil
+			}
 			if err != nil {
 				errf(ln, "%v", err)
 				cur = nil
@@ -812,4 +816,33 @@ func parseSpecFunc(s string) (*SpecFunc, error) {
 		sf.Ret = "bool"
 	}
 	return sf, nil
+}
+
+// parseExternHeader: "<go FullName>(p1, p2)" -- the key is the FullName verbatim, e.g. "(net/http.ResponseWriter).WriteHeader".
+func parseExternHeader(s string) (key string, params []string, err error) {
+	s = strings.TrimSpace(s)
+	if !strings.HasSuffix(s, ")") {
+		return s, nil, nil
+	}
+	d := 0
+	for i := len(s) - 1; i >= 0; i-- {
+		if s[i] == ')' {
+			d++
+		} else if s[i] == '(' {
+			d--
+			if d == 0 {
+				key = strings.TrimSpace(s[:i])
+				for _, p := range strings.Split(s[i+1:len(s)-1], ",") {
+					if p = strings.TrimSpace(p); p != "" {
+						params = append(params, p)
+					}
+				}
+				if key == "" {
+					return "", nil, fmt.Errorf("extern: empty name in %q", s)
+				}
+				return
+			}
+		}
+	}
+	return "", nil, fmt.Errorf("extern: bad header %q", s)
 }
